@@ -202,6 +202,7 @@ def check(rep, F, tier, replay=None):
             elif not all("BTreeSet" in x for x in prim["deduplicated_view"]):
                 rep.violation("SIB-dedup", "%s|unordered" % T, "%s de-duplicates with %s instead of an ordered-set insert" % (T, sorted(prim["deduplicated_view"])), {})
     # SIB-lang: languages are counted over the witnesses that are emitted
+    import hirq as H_
     rep.rule("SIB-lang", "TxInputsBuilder::get_used_plutus_lang_versions and get_plutus_input_scripts judge a registered witness by the same condition - its input is still a script input of the builder (both read TxInputsBuilder.inputs): a witness left behind by an input that was added again as a key input contributes no script and therefore no language view")
     a_ = find_fn(rep, F, "TxInputsBuilder::get_used_plutus_lang_versions")
     b_ = find_fn(rep, F, "TxInputsBuilder::get_plutus_input_scripts")
@@ -210,6 +211,9 @@ def check(rep, F, tier, replay=None):
         TIB_ = [x for x in F.adts if x.endswith("tx_inputs_builder::TxInputsBuilder")]
         ra_ = {f for ad, f in fields_read(F, a_, depth=2) if ad in TIB_}
         rb_ = {f for ad, f in fields_read(F, b_, depth=2) if ad in TIB_}
+        early_ = [n_[0] for n_ in H_.walk(F.hir[a_]["body"]) if n_[0] in ("break", "ret")] if a_ in F.hir else []
+        if early_:
+            rep.violation("SIB-lang", "TxInputsBuilder::get_used_plutus_lang_versions|early-exit", "get_used_plutus_lang_versions leaves a loop early (%s): witnesses after the first one of a script-hash group are not looked at, so when that first input is no longer a script input the language of the whole group is missing from the language views although a later input of the same script is still spent" % ", ".join(sorted(set(early_))), {})
         if "inputs" not in rb_ or "required_witnesses" not in rb_:
             rep.lost("get_plutus_input_scripts no longer reads inputs and required_witnesses (%s)" % sorted(rb_))
         elif "inputs" not in ra_:
